@@ -261,3 +261,22 @@ def inline_locals(fn: ast.FunctionDef, e: ast.expr, keep: tuple[str, ...] = ()) 
     if not env:
         return e
     return _Inliner(env).visit(copy.deepcopy(e))
+
+
+MUTATORS = {"append", "extend", "insert", "pop", "remove", "clear", "update", "add", "discard", "setdefault", "sort", "reverse", "popitem", "__setitem__", "__delitem__"}
+
+
+def inplace_mutations(fn: ast.AST, attr: str) -> list[ast.AST]:
+    """Statements/calls in fn that modify the object held in self.<attr> in place (mutator call, item store/delete, augmented assignment)."""
+    out: list[ast.AST] = []
+    for n in walk_no_nested(fn):
+        if isinstance(n, ast.Call) and isinstance(n.func, ast.Attribute) and n.func.attr in MUTATORS and self_attr(n.func.value) == attr:
+            out.append(n)
+        elif isinstance(n, (ast.Assign, ast.AugAssign, ast.Delete)):
+            tg = n.targets if isinstance(n, (ast.Assign, ast.Delete)) else [n.target]
+            for t in tg:
+                if isinstance(t, ast.Subscript) and self_attr(t.value) == attr:
+                    out.append(n)
+                elif isinstance(n, ast.AugAssign) and self_attr(t) == attr:
+                    out.append(n)
+    return out
